@@ -313,7 +313,7 @@ def gen_cases(ctx):
                 text, sig = _multi_ace(rng, allow_neq=rng.random() < 0.5)
                 lines.append(text)
                 sigs.append(sig)
-            elif r2 < 0.7 and sigs and any(" eq " in ln for ln in lines):
+            elif r2 < 0.7 and sigs and any(" eq " in ln and not ln.startswith("remark") for ln in lines):
                 # a later entry textually equal to one piece of an earlier multi-port eq entry (often with another action between)
                 src_line = rng.choice([ln for ln in lines if " eq " in ln and not ln.startswith("remark")])
                 toks = src_line.split()
